@@ -580,6 +580,11 @@ def run(ctx):
     ctx.attempt(inverse_trig_domain_rule, ctx)
     ctx.attempt(plane_degenerate_rule, ctx)
     ctx.attempt(sqrt_domain_rule, ctx)
+    ctx.attempt(history_protocol_rule, ctx)
+    from . import c04 as _c04
+
+    # 'for the damage-based solvers the damage never decreases': the bound d >= d_old reaches the solver on the unknown dofs it belongs to
+    ctx.attempt(_c04.elimination_rule, ctx, "R17.20")
     from ..shared import per_group_state_rule as _per_group_state_rule
 
     ctx.attempt(_per_group_state_rule, ctx, "R17.18", lambda f: f.qualname.startswith("EasyFEA.Simulations."), 5)
@@ -1132,3 +1137,91 @@ def sqrt_domain_rule(ctx):
                 r.fail(f.qualname, f"unclamped-sqrt:{norm_text(a)[:30]}", f.file, n.lineno, f"{(f.cls.name + '.') if f.cls else ''}{f.name}", f"`{norm_text(n)[:50]}`: the argument is the computed difference `{norm_text(cur)[:60]}`, non-negative only in exact arithmetic: at (nearly) equal eigenvalues round-off makes it negative and the square root is NaN (equibiaxial / hydrostatic states)")
             else:
                 r.ok(f"{f.qualname}: {norm_text(n)[:40]} ({verdict})")
+
+
+def history_protocol_rule(ctx, rid="R17.19"):
+    """'Along any loading history the driving (history) energy at each integration point never decreases' / 'restoring
+    iteration i brings back the internal variables': the history protocol of the phase-field simulation is INTERPRETED.
+    `__Calc_psiPlus_e_pg`, `Save_Iter`, `Set_Iter(resetAll=True)` and `_Update(mesh event)` are run on a simulation object
+    with one element group and two integration points, the energy split replaced by a table of exact values; a reference
+    history (committed field H_c; a trial evaluation returns max(psi, H_c) and commits nothing; Save_Iter commits the last
+    evaluation) is advanced beside it.  Scenarios: trial evaluations between commits, a commit after a mesh event, a
+    restore of an earlier iteration followed by a further evaluation."""
+    from ..femchain import fe_hook_full, XFe
+
+    repo = ctx.repo
+    ps = repo.cls(PFS)
+    simu = repo.cls("EasyFEA.Simulations._simu._Simu")
+    mesh_ci = repo.cls("EasyFEA.FEM._mesh.Mesh")
+    r = ctx.rule(rid, "history protocol interpreted: a trial evaluation returns max(psi, committed history) and commits nothing, Save_Iter commits the last evaluation, the committed field never decreases (also when the mesh is moved between the solve and the commit), Set_Iter(i, resetAll=True) rebuilds the history of iteration i", min_instances=4)
+    fCalc = repo.lookup_method(ps, ps.mangle("__Calc_psiPlus_e_pg"))
+    fSave, fSet, fUpd = ps.methods["Save_Iter"], ps.methods["Set_Iter"], repo.lookup_method(ps, "_Update")
+    V = lambda a, b: XArray((1, 2), [Q(a), Q(b)])
+
+    def scenario(label, ops):
+        r.instance(fn=fCalc.qualname)
+        g = XObj(repo.cls("EasyFEA.FEM._group_elem._GroupElem"), {"Ne": 1})
+        cur = {"psi": None}
+        solver_types = SimpleNamespace(History="History", HistoryDamage="HistoryDamage", BoundConstrain="BoundConstrain")
+        pfm = SimpleNamespace(solver="History", SolverType=solver_types, Calc_psi_e_pg=lambda eps: (XFe(cur["psi"].shape, list(cur["psi"].data)), None))
+        mesh = XObj(mesh_ci, {"Nn": 2, "Get_list_groupElem": lambda d=None: [g]})
+        obj = XObj(ps, {
+            "phaseFieldModel": pfm, "model": pfm, "mesh": mesh, "dim": 1,
+            "displacement": XArray((2,), [Q(0), Q(0)]), "damage": XArray((2,), [Q(0), Q(0)]),
+            "_Calc_Epsilon_e_pg": lambda *a, **k: Opaque("eps"), "_Check_dim_mesh_material": lambda *a, **k: None,
+            "_Set_solutions": lambda *a, **k: None, "Need_Update": lambda *a, **k: None,
+            "ProblemTypes": SimpleNamespace(damage="damage", elastic="elastic"),
+            ps.mangle("__psiP_e_pg"): {}, ps.mangle("__old_psiP_e_pg"): {},
+            ps.mangle("__Niter"): 0, ps.mangle("__timeIter"): 0, ps.mangle("__convIter"): 0,
+            ps.mangle("__updatedDamage"): True, ps.mangle("__updatedDisplacement"): True,
+        })
+
+        def hook(fn, args, kwargs):
+            fi = fn.finfo if isinstance(fn, _Bound) else (fn if isinstance(fn, FuncInfo) else None)
+            if fi is not None and fi.cls is simu and fi.name == "Save_Iter":
+                return None
+            if fi is not None and fi.cls is simu and fi.name == "Set_Iter":
+                return {"damage": XArray((2,), [Q(0), Q(0)]), "displacement": XArray((2,), [Q(0), Q(0)])}
+            if fi is not None and fi.name in ("clear_cached_computed_values",):
+                return None
+            return fe_hook_full(fn, args, kwargs)
+
+        I = Interp(repo, extra_builtins={"Terminal": Sink()})
+        I.call_hook = hook
+        Hc = None  # committed reference history
+        last = None
+        floor = None  # every committed value so far (the field may never fall below it)
+        for k, (op, val) in enumerate(ops):
+            where = f"{label}: step {k + 1} ({op}{'' if val is None else ' ' + str([int(x) for x in val.data])})"
+            try:
+                if op == "eval":
+                    cur["psi"] = val
+                    got = XArray.from_nested(I.call_function(fCalc, [g], self_obj=obj))
+                    want = [max(a, b) for a, b in zip(val.data, Hc.data)] if Hc is not None else list(val.data)
+                    last = XArray(val.shape, want)
+                    if list(got.data) != want:
+                        low = floor is not None and any(a < b for a, b in zip(got.data, floor.data))
+                        r.fail(fCalc.qualname, f"history:{label}", fCalc.file, fCalc.lineno, "PhaseField.__Calc_psiPlus_e_pg", f"{where}: the driving energy is {[str(x) for x in got.data]}, the reference history gives max(psi, committed) = {[str(x) for x in want]}" + (": it DECREASES below a committed value (the damage heals)" if low else ": an evaluation that was never committed, or a later iteration, has entered the history"))
+                        return
+                elif op == "save":
+                    I.call_function(fSave, [], self_obj=obj)
+                    if last is not None:
+                        Hc = last
+                        floor = Hc if floor is None else XArray(Hc.shape, [max(a, b) for a, b in zip(Hc.data, floor.data)])
+                elif op == "mesh-event":
+                    I.call_function(fUpd, [mesh, "The mesh has been modified"], self_obj=obj)
+                elif op == "restore":
+                    cur["psi"] = val
+                    I.call_function(fSet, [0], {"resetAll": True}, self_obj=obj)
+                    Hc = XArray(val.shape, list(val.data))  # the history that was current when that iteration was saved (monotone loading up to it)
+                    last = Hc
+                    floor = None
+            except XRaise as e:
+                r.fail(fCalc.qualname, f"history:{label}", fCalc.file, fCalc.lineno, "PhaseField", f"{where}: raises {e}")
+                return
+        r.ok(f"{label}: {len(ops)} steps agree with the reference history")
+
+    scenario("trial evaluations between commits", [("eval", V(4, 1)), ("save", None), ("eval", V(2, 5)), ("eval", V(1, 1)), ("eval", V(6, 0)), ("save", None), ("eval", V(0, 0)), ("save", None), ("eval", V(5, 2))])
+    scenario("first step, nothing committed yet", [("eval", V(3, 3)), ("eval", V(1, 2)), ("save", None), ("eval", V(0, 5))])
+    scenario("mesh moved between the solve and the commit", [("eval", V(4, 1)), ("save", None), ("eval", V(2, 5)), ("mesh-event", None), ("save", None), ("eval", V(1, 1))])
+    scenario("restore of an earlier iteration, then a further step", [("eval", V(4, 1)), ("save", None), ("eval", V(6, 7)), ("save", None), ("restore", V(4, 1)), ("eval", V(1, 1)), ("save", None), ("eval", V(5, 0))])
